@@ -21,6 +21,7 @@ type Config struct {
 	Seed   int64
 	N      int
 	Filter string    // substring of the proto name; "" = all
+	Core   bool      // only the core types (current msgs, records, params, genesis)
 	Out    io.Writer // the `pb ...` lines
 	Log    io.Writer // covered types, problems, summary
 }
@@ -33,9 +34,10 @@ type Result struct {
 	RT      string // "1", "0", "err:..."
 	Strict  bool
 	JSONRT  string
-	RTDiff  string // path of the first difference when RT == "0"
-	JSONDif string // same for JSONRT == "0"
-	SelfErr string // non-empty if the text self-check failed
+	RTDiff  string         // path of the first difference when RT == "0"
+	JSONDif string         // same for JSONRT == "0"
+	SelfErr string         // non-empty if the text self-check failed
+	Mutated bool           // cdc.Marshal(v) changed v itself
 	Idents  map[string]int // identifications needed by the binary round trip (RT == "1")
 }
 
@@ -75,6 +77,12 @@ func guard(f func() error) (err error, panicked bool) {
 // ProbeOne marshals v with the real codec and computes the verdicts.
 func ProbeOne(cdc codec.Codec, e TypeEntry, v Msg, omit bool) Result {
 	res := Result{Name: e.Name, Text: Text(v, omit)}
+	// Marshal may mutate its argument (nil Int -> 0), so every comparison is
+	// made against a pristine copy, and JSON gets its own copy.
+	orig, vj := cloneMsg(v), cloneMsg(v)
+	if !reflect.DeepEqual(orig, v) {
+		res.SelfErr = "clone: deep copy differs from the original"
+	}
 
 	// --- text self-check (format only; bytes compared below) ---
 	parsed, perr := ParseText(res.Text)
@@ -112,12 +120,13 @@ func ProbeOne(cdc codec.Codec, e TypeEntry, v Msg, omit bool) Result {
 			res.RT = "err:" + clean(err.Error(), 120)
 		default:
 			var df differ
-			if d := df.diff(reflect.ValueOf(v), reflect.ValueOf(fresh), ""); d != "" {
+			res.Mutated = !reflect.DeepEqual(orig, v)
+			if d := df.diff(reflect.ValueOf(orig), reflect.ValueOf(fresh), ""); d != "" {
 				res.RT = "0"
 				res.RTDiff = d
 			} else {
 				res.RT = "1"
-				res.Strict = reflect.DeepEqual(v, fresh)
+				res.Strict = reflect.DeepEqual(orig, fresh)
 				res.Idents = df.idents
 				if res.Strict != (len(df.idents) == 0) {
 					// DeepEqual and the identification bookkeeping disagree
@@ -129,7 +138,7 @@ func ProbeOne(cdc codec.Codec, e TypeEntry, v Msg, omit bool) Result {
 
 	// --- JSON ---
 	var js []byte
-	err, pan = guard(func() (err error) { js, err = cdc.MarshalJSON(v); return })
+	err, pan = guard(func() (err error) { js, err = cdc.MarshalJSON(vj); return })
 	switch {
 	case pan:
 		res.JSONRT = clean("err:panic:marshal:"+err.Error(), 120)
@@ -144,7 +153,7 @@ func ProbeOne(cdc codec.Codec, e TypeEntry, v Msg, omit bool) Result {
 		case err != nil:
 			res.JSONRT = clean("err:unmarshal:"+err.Error(), 120)
 		default:
-			if d := new(differ).diff(reflect.ValueOf(v), reflect.ValueOf(fresh2), ""); d != "" {
+			if d := new(differ).diff(reflect.ValueOf(orig), reflect.ValueOf(fresh2), ""); d != "" {
 				res.JSONRT = "0"
 				res.JSONDif = d
 			} else {
@@ -202,7 +211,7 @@ func Run(cfg Config) error {
 	all, problems := Types(enc.InterfaceRegistry, cfg.Log)
 	var types []TypeEntry
 	for _, e := range all {
-		if cfg.Filter == "" || strings.Contains(e.Name, cfg.Filter) {
+		if (cfg.Filter == "" || strings.Contains(e.Name, cfg.Filter)) && (!cfg.Core || e.Core) {
 			types = append(types, e)
 		}
 	}
@@ -231,6 +240,7 @@ func Run(cfg Config) error {
 	for i, e := range types {
 		gens[i] = NewGen(typeSeed(cfg.Seed, e.Name))
 	}
+	mutated := 0                   // lines where cdc.Marshal changed its argument
 	identLines := map[string]int{} // identification -> number of lines that needed it
 	classes := map[string]*class{}
 	addClass := func(key, line string) {
@@ -295,6 +305,9 @@ func Run(cfg Config) error {
 		for id := range res.Idents {
 			identLines[id]++
 		}
+		if res.Mutated {
+			mutated++
+		}
 		if res.JSONRT != "1" {
 			st.jsonBad++
 			r := res.JSONRT
@@ -336,6 +349,8 @@ func Run(cfg Config) error {
 	for _, id := range ids {
 		fmt.Fprintf(cfg.Log, "probe19: ident %-48s %d\n", id, identLines[id])
 	}
+
+	fmt.Fprintf(cfg.Log, "probe19: lines where cdc.Marshal(v) mutated v (nil Int field replaced by 0 in place): %d\n", mutated)
 
 	keys := make([]string, 0, len(classes))
 	for k := range classes {
